@@ -351,6 +351,81 @@ Proof.
 Qed.
 
 (* ---- whole linear-rk4 runs ---- *)
+(* ---- Ehrenfest and cumulative FSSH with the linear-rk4 electronic step ---- *)
+Lemma step_eh_rk4_props n m dt maxdt start e0 e1 eigs vecs (s : tstate (T:=R)) :
+  let '(s', W) := step_eh_rk4 ROps n m dt maxdt start e0 e1 eigs vecs s in
+  let f0 := eh_force_code ROps n (prho s) (eforce e0) in let f1 := eh_force_code ROps n (prho s) (eforce e1) in
+  let v1 := advance_velocity ROps m (pv s) f0 f1 dt in
+  pact s' = pact s /\ ptime s' = ptime s + dt
+  /\ prho s' = rk4_step ROps n (eH e0) (eH e1) (etau e0) (etau e1) v1 (pv s) eigs vecs dt maxdt start (prho s)
+  /\ px s' = advance_position ROps m (px s) (pv s) f0 dt /\ pv s' = v1.
+Proof. unfold step_eh_rk4. cbn. repeat split; reflexivity. Qed.
+
+Lemma step_eh_rk4_trace_herm n m dt maxdt start e0 e1 eigs vecs (s : tstate (T:=R)) :
+  unitary n (mget ROps (mofreal ROps n vecs)) ->
+  mherm n (mofreal ROps n (eH e0)) -> mherm n (mofreal ROps n (eH e1)) ->
+  (forall tau w, (tau = etau e0 \/ tau = etau e1) -> aherm n (mget ROps (tvmat ROps n tau w))) ->
+  mherm n (prho s) ->
+  let s' := fst (step_eh_rk4 ROps n m dt maxdt start e0 e1 eigs vecs s) in
+  mherm n (prho s') /\ mtrace ROps n (prho s') = mtrace ROps n (prho s) /\ pact s' = pact s.
+Proof.
+  intros HV H0 H1 Ht Hr. unfold step_eh_rk4. cbn [fst prho pact].
+  destruct (rk4_step_trace_herm n (eH e0) (eH e1) (etau e0) (etau e1)
+              (advance_velocity ROps m (pv s) (eh_force_code ROps n (prho s) (eforce e0)) (eh_force_code ROps n (prho s) (eforce e1)) dt)
+              (pv s) eigs vecs dt maxdt start HV H0 H1 (fun tau w Htau _ => Ht tau w Htau) (prho s) Hr) as [A B].
+  split; [exact A|]. split; [exact B | reflexivity].
+Qed.
+
+Lemma step_cum_rk4_shape n m dt maxdt start e0 e1 eigs vecs (s s' : tstate (T:=R)) c c' hp att :
+  step_cum_rk4 ROps n m dt maxdt start e0 e1 eigs vecs s c = (s', c', hp, att) ->
+  let f0 := nth (pact s) (eforce e0) [] in let f1 := nth (pact s) (eforce e1) [] in
+  let v1 := advance_velocity ROps m (pv s) f0 f1 dt in
+  ptime s' = ptime s + dt
+  /\ prho s' = rk4_step ROps n (eH e0) (eH e1) (etau e0) (etau e1) v1 (pv s) eigs vecs dt maxdt start (prho s)
+  /\ px s' = advance_position ROps m (px s) (pv s) f0 dt
+  /\ pact s' = match att with Some (t, true) => t | _ => pact s end.
+Proof.
+  unfold step_cum_rk4. destruct (cum_step ROps c _) as [c1 a]. destruct a as [[[[tg|] z] p]|].
+  - unfold hop_to_it. destruct (hop_allowed _ _ _ _ _); intros H; injection H as <- <- <- <-; cbn; repeat split; reflexivity.
+  - intros H; injection H as <- <- <- <-; cbn; repeat split; reflexivity.
+  - intros H; injection H as <- <- <- <-; cbn; repeat split; reflexivity.
+Qed.
+
+Lemma step_cum_rk4_trace_herm n m dt maxdt start e0 e1 eigs vecs (s s' : tstate (T:=R)) c c' hp att :
+  step_cum_rk4 ROps n m dt maxdt start e0 e1 eigs vecs s c = (s', c', hp, att) ->
+  unitary n (mget ROps (mofreal ROps n vecs)) ->
+  mherm n (mofreal ROps n (eH e0)) -> mherm n (mofreal ROps n (eH e1)) ->
+  (forall tau w, (tau = etau e0 \/ tau = etau e1) -> aherm n (mget ROps (tvmat ROps n tau w))) ->
+  mherm n (prho s) ->
+  mherm n (prho s') /\ mtrace ROps n (prho s') = mtrace ROps n (prho s).
+Proof.
+  intros H HV H0 H1 Ht Hr. destruct (step_cum_rk4_shape _ _ _ _ _ _ _ _ _ _ _ _ _ _ _ H) as (_ & Hrho & _).
+  rewrite Hrho. apply rk4_step_trace_herm; try assumption.
+  intros tau w Htau _. apply Ht. exact Htau.
+Qed.
+
+(* an accepted hop of the cumulative pass with the rk4 electronic step: same energy bookkeeping, accumulation reset *)
+Lemma step_cum_rk4_hop_energy n m dt maxdt start e0 e1 eigs vecs (s s' : tstate (T:=R)) c c' hp t :
+  step_cum_rk4 ROps n m dt maxdt start e0 e1 eigs vecs s c = (s', c', hp, Some (t, true)) ->
+  let f0 := nth (pact s) (eforce e0) [] in let f1 := nth (pact s) (eforce e1) [] in
+  let v1 := advance_velocity ROps m (pv s) f0 f1 dt in
+  Forall (fun mi => 0 < mi) m -> length v1 = length m -> length (tget (etau e1) (pact s) t) = length m ->
+  0 < vdot ROps (tget (etau e1) (pact s) t) (tget (etau e1) (pact s) t) ->
+  pact s' = t /\ kinetic ROps m (pv s') + vget ROps (diagE ROps n e1) t
+                 = kinetic ROps m v1 + vget ROps (diagE ROps n e1) (pact s)
+  /\ acc c' = 0.
+Proof.
+  intros H f0 f1 v1. unfold step_cum_rk4 in H. change (advance_velocity ROps m (pv s) (nth (pact s) (eforce e0) []) (nth (pact s) (eforce e1) []) dt) with v1 in H.
+  destruct (cum_step ROps c _) as [c1 att] eqn:Ec.
+  destruct att as [[[[tg|] z] p]|]; try discriminate.
+  destruct (hop_to_it ROps m v1 (pact s) tg (diagE ROps n e1) (tget (etau e1) (pact s) tg)) as [[a' v2] ac] eqn:Eh.
+  intros Hm Hv Hd Hn. injection H as Hs Hc Hhp Ht Hacc. subst. cbn [pact pv].
+  destruct (hop_energy_exact m v1 _ _ (pact s) _ a' v2 Hm Hv Hd (qa_pos m _ Hd Hm Hn) Eh) as [A B].
+  split; [exact A|]. split; [exact B|].
+  unfold cum_step in Ec. destruct (oltb ROps _ _); [|discriminate].
+  destruct (stream c); [discriminate|]. destruct (draw ROps (zlist c) _) as [[z' zl'] st'']. injection Ec as <- _. reflexivity.
+Qed.
+
 Definition rk_ok (n : nat) (d : kdata (T:=R)) : Prop :=
   unitary n (mget ROps (mofreal ROps n (kvecs d)))
   /\ mherm n (mofreal ROps n (eH (ke0 d))) /\ mherm n (mofreal ROps n (eH (ke1 d)))
